@@ -80,10 +80,13 @@ def encOptList (f : α → Json) : Option (List α) → Json
   | none => .null
   | some xs => .arr (xs.map f)
 
+def attrName : Attr → String
+  | .label => "name" | .method => "method" | .path => "path" | .tag => "tag" | .operationId => "operation_id"
+
 def encMatcher : Matcher → Json
-  | .value a (.one s) => .arr [.str (reprStr a), jstr s]
-  | .value a (.many xs) => .arr [.str (reprStr a), .arr (xs.map jstr)]
-  | .regex a i => .arr [.str (reprStr a), .str "regex", jnat i]
+  | .value a (.one s) => .arr [.str (attrName a), jstr s]
+  | .value a (.many xs) => .arr [.str (attrName a), .arr (xs.map jstr)]
+  | .regex a i => .arr [.str (attrName a), .str "regex", jnat i]
   | .func .isDeprecated => .str "is_deprecated"
   | .func (.user i) => .arr [.str "fn", jnat i]
 
